@@ -43,12 +43,15 @@ pub fn case(x: &Xfer) -> CaseOut {
     let mut sent_sizes: BTreeMap<usize, Vec<usize>> = BTreeMap::new();
     let mut last_mtu: BTreeMap<usize, u16> = BTreeMap::new();
     let mut outstanding_probe: BTreeMap<usize, bool> = BTreeMap::new();
+    let mut last_remote: BTreeMap<usize, Option<std::net::SocketAddr>> = BTreeMap::new();
     for rec in &w.trace {
         let Rec::Tx { t, conn, dgrams, before: Some(b), after: Some(a), seg, size, .. } = rec else { continue };
         let c = &w.conns[*conn];
         let (tc, peer_ep) = if c.side.is_client() { (&x.net.client_tc, &x.net.server_ep) } else { (&x.net.server_tc, &x.net.client_ep) };
         // MTU estimate evolution between polls
-        if let Some(prev) = last_mtu.get(conn).copied() {
+        // a new path (migration) starts from the configured initial MTU again
+        let new_path = last_remote.insert(*conn, b.remote) != Some(b.remote);
+        if let (Some(prev), false) = (last_mtu.get(conn).copied(), new_path) {
             if b.mtu > prev {
                 mtu_up = true;
                 let ok = sent_sizes.get(conn).is_some_and(|v| v.contains(&(b.mtu as usize)));
@@ -145,7 +148,9 @@ pub fn case(x: &Xfer) -> CaseOut {
     let kf = w.conns.iter().any(|c| padded_acks_block_cwnd(x, c))
         || w.conns.iter().any(|c| c.c.verif_probe().authentication_failures >= 3)
         || w.conns.iter().any(|c| c.c.verif_probe().state == 0);
-    if !r.completed && !pad && !kf && lost.is_empty() && w.stats.dgrams_mtu_dropped > 0 {
+    // (recovery across a migration is C15's business: its known finding on packets sent on an abandoned
+    // path would surface here)
+    if !r.completed && !pad && !kf && lost.is_empty() && w.stats.dgrams_mtu_dropped > 0 && x.net.client_move_at_us.is_none() {
         return CaseOut::fail(
             "c13/no-recovery-after-mtu-drop",
             format!("link dropped {} oversized datagrams and the transfer never completed (now {} us); MTU estimates {:?}", w.stats.dgrams_mtu_dropped, w.now, w.conns.iter().map(|c| c.c.current_mtu()).collect::<Vec<_>>()),
@@ -189,7 +194,18 @@ pub fn run(report: &Report) -> i32 {
         report,
         "c13",
         "proptest-generated transfers over a link with a time-varying silent size threshold (>= 1200), initial_mtu 1200..1500, MTUD upper bounds 1200..9000 or disabled, peer max_udp_payload_size 1200..9000, GSO batch 1..10, pad_to_mtu, application datagrams at max_size()+-2; per-poll_transmit size oracle with single-probe exemption, GSO shape, Initial/path-validation padding, loss-probe clamp, MTU monotonic-with-cause, recovery after black hole; non-trivial = the MTU estimate changed during a transfer that used GSO batches or max-size datagrams",
-        || arb_xfer(gen()),
+        || {
+            use proptest::prelude::*;
+            // a quarter of the cases: the client's source address changes mid-transfer (server permits
+            // migration), so PATH_CHALLENGE / PATH_RESPONSE datagrams and the new path's MTU discovery appear
+            (arb_xfer(gen()), prop::option::weighted(0.25, 200_000u32..3_000_000)).prop_map(|(mut x, mv)| {
+                if let (Some(t), true) = (mv, x.net.client_ep.cid_len > 0 && x.net.server_ep.cid_len > 0) {
+                    x.net.client_move_at_us = Some(t);
+                    x.net.srv.migration = true;
+                }
+                x
+            })
+        },
         report.cases(6000, 300_000),
         case,
     );
